@@ -31,7 +31,7 @@ func zooValue(d int) any {
 	case 2:
 		return pick([]string{"", "a", "aéb", "\xff\xfe", "€😀", "a\x00b", "\xe2\x82"})
 	case 3:
-		return json.Number(pick([]string{"1", "-2.5", "1e3", "", "abc", "NaN", "Inf", "-inf", "1e99999", "0x10", "1_000", "+5", ".5", "5.", "١", "1e", "--1", "9223372036854775808", "3.0", "1e400"}))
+		return json.Number(pick([]string{"1", "-2.5", "1e3", "", "abc", "NaN", "Inf", "-inf", "1e99999", "0x10", "1_000", "1__0", "_1", "1_", "1_.5", "1._5", "1e1_0", "-1_0", "1_e2", "infinity", "+Inf", "nan", "-NaN", "1e-99999", "0e99999", "+5", ".5", "5.", "١", "1e", "--1", "9223372036854775808", "3.0", "1e400"}))
 	case 4:
 		return pick([]float64{0, 1.5, -2, math.NaN(), math.Inf(1), math.Inf(-1), math.Copysign(0, -1), 1e308, 5e-324, 9.223372036854775807e18, -9.3e18, 3})
 	case 5:
@@ -125,7 +125,7 @@ func modelled(v any) bool {
 	return false
 }
 
-var tokenSoup = []string{"a", "b", "@", "$", "$x", "*", ".", ".*", "[", "]", "[*]", "[]", "[?", "(", ")", "{", "}", ",", ":", "|", "||", "&&", "&", "!", "==", "!=", "<", "<=", ">", ">=", "+", "-", "×", "÷", "−", "/", "//", "%", "`1`", "`\"x\"`", "'s'", "\"q\"", "0", "-1", "1:", "let", "in", "=", "abs(", "length(", "sort_by(", "map(&", "foo(", " ", "\n", "`", "'", "\"", "\\", "\xff", "\xc3", "9223372036854775808", "-9223372036854775809", "€", "😀"}
+var tokenSoup = []string{"a", "b", "@", "$", "$x", "*", ".", ".*", "[", "]", "[*]", "[]", "[?", "(", ")", "{", "}", ",", ":", "|", "||", "&&", "&", "!", "==", "!=", "<", "<=", ">", ">=", "+", "-", "×", "÷", "−", "/", "//", "%", "`1`", "`\"x\"`", "'s'", "\"q\"", "0", "-1", "1:", "let", "in", "=", "abs(", "length(", "sort_by(", "map(&", "foo(", " ", "\n", "`", "'", "\"", "\\", "\xff", "\xc3", "9223372036854775808", "-9223372036854775809", "€", "😀", "$1", "$0a", "$_", "1a", "_1", "a1", "&&&", "|||", "[[", "]]", "[*", "*]", "[ ]", ".[", ".{", "?", "\"\\ud800\"", "\"\\u00e9\"", "`[1]]`", "`{}}`", "`1 2`", "`\"a\" `"}
 
 func soup() string {
 	var b strings.Builder
@@ -169,7 +169,7 @@ func genC03(tier, out string, sum *Summary) {
 			sum.direct("panic", expr, doc, "Search panicked: "+o.Msg)
 		}
 		distinct[stream+"|"+o.Kind+"|"+strings.Join(o.Cats, ",")+"|"+fmt.Sprintf("%T", o.Value)] = true
-		if modelled(doc) && len(expr) < 400 {
+		if modelled(doc) && len(expr) < 400 && !(hasEnumText(expr) == "true" && strings.ContainsAny(expr, "[<>=!")) {
 			sh.Add(fmt.Sprintf("BC %d %s %s %v %s", id, hx(expr), coqValue(doc), hasEnumText(expr), coqObs(o)))
 			sid := strconv.Itoa(id)
 			sum.Index[sid] = map[string]any{"expr": expr, "doc": fmt.Sprintf("%#v", doc), "observed": obsJSON(o)}
@@ -192,7 +192,11 @@ func genC03(tier, out string, sum *Summary) {
 		case 2:
 			run(soup(), genDoc(), "token-soup")
 		case 3:
-			run(randomBytes(), zooValue(2), "random-bytes")
+			if rng.Intn(2) == 0 {
+				run(escapeFuzz(), genDoc(), "escape-fuzz")
+			} else {
+				run(randomBytes(), zooValue(2), "random-bytes")
+			}
 		case 4: // boundary integers at every integer-taking position
 			f := pick(intFuncs)
 			// pad widths decide the size of the result, so only small and invalid widths are swept
@@ -223,6 +227,9 @@ func genC03(tier, out string, sum *Summary) {
 			run(fn+"(@)", zooValue(2), "builtin-on-zoo")
 			run("sort_by(@, &@) || max_by(@, &a) || group_by(@, &a)", zooValue(2), "builtin-on-zoo")
 			run("@ == a || @ < `1` || contains(@, a) || -@ || +@ || @ + a || @ // a || @ % a", zooValue(2), "builtin-on-zoo")
+			// two values of the same (possibly uncomparable, foreign) Go type against each other
+			z := zooValue(1)
+			run(pick([]string{"a == b", "a != b", "a == a", "contains([a], b)", "[a][?@ == $.b]", "{p: a} == {p: b}", "[a, b] == [b, a]", "sort_by([{k: a}], &k)", "max_by([{k: a}, {k: b}], &k)", "a < b", "merge({x: a}, {x: b})", "not_null(a, b)", "[a, b][?@]", "zip([a], [b])", "group_by([{k: a}], &k)", "to_array(a) == to_array(b)"}), map[string]any{"a": z, "b": sameTypeAs(z)}, "same-type-pairs")
 		}
 	}
 	// deep nesting (bounded here; the crash at ~10^6 is exercised by the thorough tier in a child process)
@@ -294,6 +301,31 @@ func genC04(tier, out string, sum *Summary) {
 			emit(c.expr, "invalid")
 		}
 	}
+	for _, e := range []string{"$1", "$0abc", "let $1 = a in $1", "a[?$1]", "`[1, 2]]`", "`{\"a\": 1}}`", "`\"abc\"}`", "`1]`", "`1 2`", "`[1],`", "\"\\ud800\"", "a.\"x\\ud83d\"", "\"\\u12\"", "\"\\uZZZZ\"", "\"\\x\"", "let", "in", "let in", "in a", "a in b", "let $a = b", "1", "-1", "a - 1", "a.1", "a.@", "a.$", "a.'b'", "@.@", "[1,2]", "a[1 2]", "a[1,2]", "a[*", "a[ *]", "a[* ]", "a. *", "a.* *", "a..*", "a[]]", "a[[]", "a[?]", "a[? ]", "&a", "a&b", "a & b", "a |& b", "a =! b", "a = b", "a === b", "a <> b", "a >< b", "a !b", "!", "a!", "a ! b", "()", "(,)", "abs(,)", "contains(a,)", "abs(,a)", "{}", "{,}", "{a}", "{a:}", "{a:b,}", "{a b}", "{\"a\" b}", "{a::b}", "'", "''x", "'a''b'", "\"", "\"\"x", "`", "``", "` `"} {
+		emit(e, "invalid")
+	}
+	// bounded-exhaustive short strings over the characters that matter to the lexer: the model decides membership
+	alpha := []string{"a", "1", "_", "$", "&", "|", "*", ".", "[", "]", "(", ")", "{", "}", ",", ":", "'", "\"", "`", "@", "!", "<", "=", ">", "-", "+", "/", "%", "?", " ", "\\", "é"}
+	for _, x := range alpha {
+		emit(x, "unknown")
+		for _, y := range alpha {
+			emit(x+y, "unknown")
+			for _, z := range alpha {
+				if tier == "thorough" || rng.Intn(12) == 0 {
+					emit(x+y+z, "unknown")
+				}
+			}
+		}
+	}
+	for i := 0; i < n/4; i++ {
+		k := 4 + rng.Intn(3)
+		t := ""
+		for j := 0; j < k; j++ {
+			t += pick(alpha)
+		}
+		emit(t, "unknown")
+		emit(escapeFuzz(), "unknown")
+	}
 	sh.Flush()
 	sum.Cases = id
 	sum.Shards = sh.files
@@ -359,4 +391,74 @@ func breakIt(s string) string {
 		return s + " || || " + s
 	}
 	return "[" + s + ",]"
+}
+
+// another value of the same dynamic Go type (for foreign values: a distinct instance)
+func sameTypeAs(v any) any {
+	switch v.(type) {
+	case []string:
+		return []string{"x"}
+	case map[string]int:
+		return map[string]int{"y": 2}
+	case []int:
+		return []int{3}
+	case foreign:
+		return foreign{7}
+	case *foreign:
+		return &foreign{8}
+	case struct{}:
+		return struct{}{}
+	case chan int:
+		return make(chan int)
+	case func():
+		return func() {}
+	}
+	return v
+}
+
+// literals with random escape sequences: complete, truncated, surrogate halves, wrong hex digits
+func escapeFuzz() string {
+	esc := func() string {
+		switch rng.Intn(12) {
+		case 0:
+			return `\ud800`
+		case 1:
+			return `\udc00`
+		case 2:
+			return `\ud83d\ude00`
+		case 3:
+			return `\ud83d\u0041`
+		case 4:
+			return `\u00e9`
+		case 5:
+			return `\u12`
+		case 6:
+			return `\uZZZZ`
+		case 7:
+			return `\n`
+		case 8:
+			return `\x`
+		case 9:
+			return `\`
+		case 10:
+			return `\ud83d\`
+		}
+		return pick([]string{`\"`, `\'`, "\\`", `\/`, `\u0000`, `\uFFFF`, `\u0080`, `\ud83d\ude0`, `\ud83dx`})
+	}
+	body := ""
+	for i := 0; i < 1+rng.Intn(3); i++ {
+		body += pick([]string{"", "a", "é", "k"}) + esc()
+	}
+	body += pick([]string{"", "z", "\\"})
+	switch rng.Intn(5) {
+	case 0:
+		return `"` + body + `"`
+	case 1:
+		return `a."` + body + `"`
+	case 2:
+		return "`\"" + body + "\"`"
+	case 3:
+		return `'` + body + `'`
+	}
+	return `{"` + body + `": @}`
 }
